@@ -251,7 +251,8 @@ impl Aml for Iommu {
         sink.byte(RimtDeviceType::Iommu as u8);
         // Revision
         sink.byte(1);
-        // Length
+        // Length (a 16-bit field)
+        assert!(self.len() <= u16::MAX as usize);
         sink.word(self.len() as u16);
         // ID
         sink.word(self.id);
@@ -403,7 +404,8 @@ impl Aml for PcieRootComplex {
         sink.byte(RimtDeviceType::PcieRootComplex as u8);
         // Revision
         sink.byte(1);
-        // Length
+        // Length (a 16-bit field)
+        assert!(self.len() <= u16::MAX as usize);
         sink.word(self.len() as u16);
         // ID
         sink.word(self.id);
@@ -465,7 +467,8 @@ impl Aml for Platform {
         sink.byte(RimtDeviceType::Platform as u8);
         // Revision
         sink.byte(1);
-        // Length
+        // Length (a 16-bit field)
+        assert!(self.len() <= u16::MAX as usize);
         sink.word(self.len() as u16);
         // ID
         sink.word(self.id);
